@@ -181,6 +181,45 @@ func checkC07(c *km.Ctx) {
 	if nUp == 0 || nDel == 0 {
 		r.AnchorLost("R-C07-2", sprintf("UpsertSigned (%d) / DeleteSigned (%d) in updateOrDeletePasswordHash", nUp, nDel))
 	}
+	// acceptance always refreshes: the recorder reports success for an accepted password only after the upsert was
+	// made and succeeded (a shortcut that skips the write when the stored hash already matches leaves the old
+	// expiry in place: the 96 h would count from the first login instead of the latest one)
+	upsertOK := km.Prim{Name: "UpsertSigned succeeded", Direct: func(f km.Fact) bool {
+		if f.Op != token.EQL || !km.IsNilConst(f.Y) {
+			return false
+		}
+		cl, _ := callRes(f.X)
+		return cl != nil && km.CalleeFull(cl.Common()) == storeIface+"UpsertSigned"
+	}}
+	hashFailed := km.Prim{Name: "Argon2MakeNewHash failed", Direct: func(f km.Fact) bool {
+		if f.Op != token.NEQ || !km.IsNilConst(f.Y) {
+			return false
+		}
+		cl, idx := callRes(f.X)
+		return cl != nil && idx == 1 && km.CalleeFull(cl.Common()) == authutilPkg+".Argon2MakeNewHash"
+	}}
+	nAcc := 0
+	for _, rc := range s.RetCases(upd) {
+		last := rc.Results[len(rc.Results)-1]
+		if !isErrorType(last.Type()) {
+			continue
+		}
+		if !km.IsNilConst(last) {
+			continue // an error handed on (the upsert's own result included) is not a success report
+		}
+		okAll := true
+		for _, k := range rc.State {
+			if s.Holds(k, validFalse) || s.Holds(k, hashFailed) {
+				continue // a rejection, or no hash could be computed (nothing to store)
+			}
+			nAcc++
+			if !s.Holds(k, upsertOK) {
+				okAll = false
+			}
+		}
+		r.Add("R-C07-2", km.FuncName(upd), "success reported for an accepted password", posOf(c, rc.Ret), "only after UpsertSigned was made and returned nil", clipS(rc.State.String(), 300), okAll)
+	}
+	_ = nAcc
 	nLife := 0
 	for _, fn := range c.P.AllFuncs {
 		if fn.Pkg == nil || fn.Pkg.Pkg.Path() != ldapPkg {
